@@ -156,8 +156,51 @@ class Evaluator:
         self.memo[id(o)] = r
         return r
 
+    def _preevaluate_closure(self, graph):
+        """values used inside a nested graph that do not depend on its parameters belong to the enclosing scope:
+        evaluate them there (once), before the function object exists"""
+        import einx._src.tracer as tracer
+        inner = {id(t) for t in graph.inputs}
+        dep = {}
+
+        def depends(x):
+            if isinstance(x, tracer.Graph):
+                return False
+            if isinstance(x, tracer.Tracer):
+                if id(x) in inner:
+                    return True
+                if id(x) in dep:
+                    return dep[id(x)]
+                dep[id(x)] = False
+                r = x.origin is not None and any(depends(i) for i in x.origin.inputs)
+                dep[id(x)] = r
+                return r
+            if isinstance(x, (list, tuple)):
+                return any(depends(i) for i in x)
+            if isinstance(x, dict):
+                return any(depends(i) for i in list(x.keys()) + list(x.values()))
+            return False
+
+        def walk(x):
+            if isinstance(x, tracer.Tracer):
+                if not depends(x):
+                    if x.origin is not None or id(x) in self.env:
+                        self.value(x)
+                    return
+                if x.origin is not None:
+                    for i in x.origin.inputs:
+                        walk(i)
+            elif isinstance(x, (list, tuple)):
+                for i in x:
+                    walk(i)
+            elif isinstance(x, dict):
+                for i in list(x.keys()) + list(x.values()):
+                    walk(i)
+        walk(graph.output)
+
     def function_of(self, graph):
         outer = self
+        self._preevaluate_closure(graph)
 
         def fn(*args, **kwargs):
             ev = Evaluator(outer.env)
